@@ -62,10 +62,18 @@ def prepare_workspace(tag, repo="/repo"):
     return base, ws, lock
 
 
+HOSTS = {"nexrad-decode": "src/messages.rs"}  # harness module is a child of this module (sees its private items)
+
+
 def inject(ws, crate, files, cfg="any(kani, verif_replay)"):
-    """copy harness files into <crate>/src/verif_harness/ and declare the module at the end of lib.rs"""
-    src = os.path.join(ws, crate, "src")
-    hd = os.path.join(src, "verif_harness")
+    """copy harness files into a `verif_harness` child module of the crate's host module (lib.rs by default;
+    for nexrad-decode `messages`, so that harnesses can name items of its private submodules)"""
+    host = HOSTS.get(crate, "src/lib.rs")
+    hostpath = os.path.join(ws, crate, host)
+    if host.endswith("lib.rs"):
+        hd = os.path.join(os.path.dirname(hostpath), "verif_harness")
+    else:
+        hd = os.path.join(hostpath[:-3], "verif_harness")
     os.makedirs(hd, exist_ok=True)
     mods = []
     for f in files:
@@ -76,10 +84,9 @@ def inject(ws, crate, files, cfg="any(kani, verif_replay)"):
         f.write("#![allow(unused_imports, dead_code, clippy::all)]\n")
         for m in mods:
             f.write("pub mod %s;\n" % m)
-    lib = os.path.join(src, "lib.rs")
-    text = open(lib).read()
+    text = open(hostpath).read()
     if "mod verif_harness;" not in text:
-        with open(lib, "a") as f:
+        with open(hostpath, "a") as f:
             f.write("\n#[cfg(%s)]\nmod verif_harness;\n" % cfg)
 
 
@@ -98,6 +105,20 @@ _ansi = re.compile(r"\x1b\[[0-9;]*m")
 def parse_output(text, names):
     text = _ansi.sub("", text)
     res = {n: HarnessResult(n) for n in names}
+    if re.search(r"^Thread \d+: Checking harness", text, re.M):
+        # -j format: "Thread N: Checking harness X..." then later "Thread N: <newline> result block"
+        cur = {}
+        rebuilt = []
+        chunks = re.split(r"^(Thread \d+): ?", text, flags=re.M)
+        for i in range(1, len(chunks), 2):
+            th, body = chunks[i], chunks[i + 1]
+            m = re.match(r"Checking harness (\S+?)\.\.\.", body)
+            if m:
+                cur[th] = m.group(1)
+            elif th in cur:
+                body = re.split(r"^(?:Manual Harness Summary|Complete - )", body, flags=re.M)[0]
+                rebuilt.append("Checking harness %s...\n%s\n" % (cur[th], body))
+        text = "\n".join(rebuilt)
     # split per harness
     parts = re.split(r"^Checking harness (\S+?)\.\.\.\s*$", text, flags=re.M)
     # parts: [pre, name1, body1, name2, body2, ...]
@@ -160,9 +181,37 @@ def parse_output(text, names):
     return res
 
 
+def _invoke(ws, crate, target, harnesses, features, no_default_features, jobs, harness_timeout, total_timeout,
+            extra_args, playback):
+    cmd = ["cargo", "kani", "-p", crate, "--target-dir", target, "-Z", "function-contracts", "-Z", "stubbing",
+           "-Z", "unstable-options", "--output-format", "terse", "--harness-timeout", "%ds" % harness_timeout]
+    if playback:
+        cmd += ["-Z", "concrete-playback", "--concrete-playback=print"]
+    else:
+        cmd += ["-j", str(jobs)]
+    if no_default_features:
+        cmd.append("--no-default-features")
+    if features:
+        cmd += ["--features", ",".join(features)]
+    for h in harnesses:
+        cmd += ["--harness", h]
+    cmd += list(extra_args)
+    env = dict(os.environ, CARGO_NET_OFFLINE="true")
+    env.pop("RUSTUP_TOOLCHAIN", None)
+    try:
+        p = subprocess.run(cmd, cwd=ws, env=env, capture_output=True, text=True, timeout=total_timeout)
+        text = p.stdout + "\n" + p.stderr
+    except subprocess.TimeoutExpired as e:
+        so = e.stdout.decode(errors="replace") if isinstance(e.stdout, bytes) else (e.stdout or "")
+        text = so + "\n[verif] total timeout after %ds\n" % total_timeout
+        subprocess.run(["pkill", "-f", "cbmc.*" + re.escape(target)], capture_output=True)
+    return " ".join(cmd), text
+
+
 def run_group(tag, crate, harness_files, harnesses, repo="/repo", features=None, no_default_features=False,
               jobs=8, harness_timeout=600, total_timeout=3000, extra_args=(), playback=True, log_dir=None):
-    """run `harnesses` (names) of `crate`; returns KaniGroupResult"""
+    """run `harnesses` (names) of `crate` in parallel; failed harnesses are re-run sequentially with
+    --concrete-playback=print to obtain the counterexample values.  Returns KaniGroupResult"""
     out = KaniGroupResult()
     t0 = time.time()
     base, ws, lock = prepare_workspace(tag, repo)
@@ -171,41 +220,33 @@ def run_group(tag, crate, harness_files, harnesses, repo="/repo", features=None,
         target = os.path.join(CACHE, crate + ("-nd" if no_default_features else "") +
                               ("-" + "-".join(features) if features else ""))
         os.makedirs(target, exist_ok=True)
-        cmd = ["cargo", "kani", "-p", crate, "--target-dir", target, "-Z", "function-contracts", "-Z", "stubbing", "-Z", "unstable-options",
-               "--output-format", "terse", "-j", str(jobs), "--harness-timeout", "%ds" % harness_timeout]
-        if playback:
-            cmd += ["-Z", "concrete-playback", "--concrete-playback=print"]
-        if no_default_features:
-            cmd.append("--no-default-features")
-        if features:
-            cmd += ["--features", ",".join(features)]
-        for h in harnesses:
-            cmd += ["--harness", h]
-        cmd += list(extra_args)
-        out.cmd = " ".join(cmd)
-        env = dict(os.environ, CARGO_NET_OFFLINE="true")
-        env.pop("RUSTUP_TOOLCHAIN", None)
-        try:
-            p = subprocess.run(cmd, cwd=ws, env=env, capture_output=True, text=True, timeout=total_timeout)
-            text = p.stdout + "\n" + p.stderr
-        except subprocess.TimeoutExpired as e:
-            text = ((e.stdout or b"").decode(errors="replace") if isinstance(e.stdout, bytes) else (e.stdout or "")) + \
-                   "\n[verif] total timeout after %ds\n" % total_timeout
-            subprocess.run(["pkill", "-f", "cbmc.*" + re.escape(target)], capture_output=True)
+        out.cmd, text = _invoke(ws, crate, target, harnesses, features, no_default_features, jobs, harness_timeout,
+                                total_timeout, extra_args, False)
+        clean = _ansi.sub("", text)
+        out.stubs = sorted(set(re.findall(r"^\s*- Stub: (.*)$", clean, re.M)))
+        if "Checking harness" not in clean:
+            errs = re.findall(r"^error.*$", clean, re.M)
+            out.reason = "build failed: " + ("\n".join(errs[:8]) if errs else clean[-1500:])
+            out.harnesses = {h: HarnessResult(h) for h in harnesses}
+            for r in out.harnesses.values():
+                r.reason = out.reason
+        else:
+            out.build_ok = True
+            out.harnesses = parse_output(text, harnesses)
+            failed = [h for h, r in out.harnesses.items() if r.status == "failed"]
+            if failed and playback:
+                _, text2 = _invoke(ws, crate, target, failed, features, no_default_features, 1, harness_timeout,
+                                   total_timeout, extra_args, True)
+                text += "\n===== concrete playback pass =====\n" + text2
+                second = parse_output(text2, failed)
+                for h in failed:
+                    if second[h].playback:
+                        out.harnesses[h].playback = second[h].playback
+                        out.harnesses[h].values = second[h].values
         if log_dir:
             os.makedirs(log_dir, exist_ok=True)
             out.log_path = os.path.join(log_dir, "kani-%s.log" % tag)
             open(out.log_path, "w").write(text)
-        clean = _ansi.sub("", text)
-        out.stubs = sorted(set(re.findall(r"^\s*- Stub: (.*)$", clean, re.M)))
-        if re.search(r"^error(\[E\d+\])?:", clean, re.M) and "Checking harness" not in clean:
-            out.reason = "build failed: " + "\n".join(re.findall(r"^error.*$", clean, re.M)[:8])
-            out.harnesses = {h: HarnessResult(h) for h in harnesses}
-            for r in out.harnesses.values():
-                r.reason = out.reason
-            return out
-        out.build_ok = True
-        out.harnesses = parse_output(text, harnesses)
         return out
     finally:
         out.wall_s = time.time() - t0
